@@ -232,8 +232,12 @@ func lenOf[T any](o ro.Observable[[]T]) ro.Observable[int] {
 
 // name -> pipeline over pumped inputs; `fail` makes the SECOND input end with an error
 var overlap2Ops = map[string]func(fail bool) ro.Observable[int]{
-	"TakeUntil": func(f bool) ro.Observable[int] { return ro.TakeUntil[int](pumpSourceEnd(0, 1000, f))(pumpSource(600, 0)) },
-	"SkipUntil": func(f bool) ro.Observable[int] { return ro.SkipUntil[int](pumpSourceEnd(5, 1000, f))(pumpSource(400, 0)) },
+	"TakeUntil": func(f bool) ro.Observable[int] {
+		return ro.TakeUntil[int](pumpSourceEnd(0, 1000, f))(pumpSource(600, 0))
+	},
+	"SkipUntil": func(f bool) ro.Observable[int] {
+		return ro.SkipUntil[int](pumpSourceEnd(5, 1000, f))(pumpSource(400, 0))
+	},
 	"SampleWhen": func(f bool) ro.Observable[int] {
 		return ro.SampleWhen[int](pumpSourceEnd(60, 1000, f))(pumpSource(600, 0))
 	},
@@ -285,7 +289,9 @@ var overlap2Ops = map[string]func(fail bool) ro.Observable[int]{
 	"Defer": func(f bool) ro.Observable[int] {
 		return ro.Defer(func() ro.Observable[int] { return ro.Merge(pumpSource(300, 0), pumpSourceEnd(40, 1000, f)) })
 	},
-	"Timeout": func(f bool) ro.Observable[int] { return ro.Timeout[int](50 * time.Microsecond)(pumpSourceEnd(400, 0, f)) },
+	"Timeout": func(f bool) ro.Observable[int] {
+		return ro.Timeout[int](50 * time.Microsecond)(pumpSourceEnd(400, 0, f))
+	},
 	"BufferWithTimeOrCount": func(f bool) ro.Observable[int] {
 		return lenOf(ro.BufferWithTimeOrCount[int](3, 30*time.Microsecond)(pumpSourceEnd(400, 0, f)))
 	},
